@@ -11,6 +11,8 @@ OPEN_TEST = 'SimulatedExchange.is_open_at_datetime'
 
 
 def check(ctx):
+    from ..lib import discarded_results
+    ctx.sub(discarded_results, 'C04.S5', ('qstrader/broker/',), 'the batch executed is the one the code sorted (no ordering step whose result is thrown away)')
     ctx.sub(s1_submit)
     upd = s2_s3_update(ctx)
     ctx.sub(s4_in_full)
@@ -138,6 +140,13 @@ def s2_s3_update(ctx):
     fn = ctx.fn(qn)
     ps = summarise(ctx, qn, policy=drain_policy)
     nps = normal(ps)
+    # fills prepared as callables and applied later: each must be bound to the order and the portfolio it was created for
+    from .c16 import late_bound_loop_lambdas
+    for site_, names_, src_ in late_bound_loop_lambdas(ctx, qn):
+        if '_execute_order' in src_:
+            ctx.violation('C04.S3', 'each order is executed against its own portfolio at the update time', site_,
+                          'the deferred fill reads the loop variable%s %s when it is finally called (after the loop has moved on)' % ('s' if len(names_) > 1 else '', ', '.join(names_)),
+                          key='C04.S3|late-binding')
     open_paths = closed_paths = 0
     for p in ps:
         # the clock is set to dt before anything else and never rewritten
